@@ -25,7 +25,7 @@ type Features struct {
 	RegexpAlt bool // a regexp with alternation
 }
 
-func FeaturesOf(n *Node) Features {
+func FeaturesOf(n *Node, k1 K1Set) Features {
 	var f Features
 	var walk func(x *Node, underFilter bool)
 	walk = func(x *Node, underFilter bool) {
@@ -39,7 +39,7 @@ func FeaturesOf(n *Node) Features {
 				f.RegexpAlt = true
 			}
 		case "boolean":
-			if x.K1 == 1 {
+			if k1[x] {
 				f.K1 = true
 				if underFilter {
 					f.K1Filter = true
@@ -72,7 +72,7 @@ func FeaturesOf(n *Node) Features {
 // condition of the unadorned optimisations).
 func ProneTo(f Features, eng string, unadorned bool) []string {
 	var out []string
-	if eng == EngScorch {
+	if IsScorch(eng) {
 		if f.Fuzzy {
 			out = append(out, SigK2)
 		}
@@ -88,19 +88,19 @@ func ProneTo(f Features, eng string, unadorned bool) []string {
 // AnnotateK1 marks the boolean nodes whose should clause, built as scorch
 // builds it under score:none, reports a Min() below the requested minimum
 // (the unadorned disjunction optimisation returns a term searcher).
-func AnnotateK1(n *Node, sc bleve.Index) error {
+func AnnotateK1(n *Node, sc bleve.Index) (K1Set, error) {
+	out := K1Set{}
 	adv, err := sc.Advanced()
 	if err != nil {
-		return err
+		return nil, err
 	}
 	rd, err := adv.Reader()
 	if err != nil {
-		return err
+		return nil, err
 	}
 	defer rd.Close()
 	var ferr error
 	n.Walk(func(x *Node) {
-		x.K1 = 0
 		if x.Type != "boolean" || len(x.Must) == 0 || len(x.Should) < 2 || x.MinN < 1 {
 			return
 		}
@@ -116,11 +116,11 @@ func AnnotateK1(n *Node, sc bleve.Index) error {
 			return
 		}
 		if s.Min() < x.MinN {
-			x.K1 = 1
+			out[x] = true
 		}
 		s.Close()
 	})
-	return ferr
+	return out, ferr
 }
 
 // HasMustShouldMin: a boolean with must and should(min >= 1) somewhere: an
